@@ -220,6 +220,52 @@ def impl_checks(ctx):
         ev += len(zt)
         if not np.all((zt > 0.05) & (zt < 5) & np.isfinite(zt)) or np.abs(np.diff(zt)).max() > 0.05:
             bad("build_pvt_gas z-factor column contains a search bound / jump", dict(sg=sg, T=T), [float(zt.min()), float(zt.max())])
+    # ---------------- interleaved evaluations (schedules): (a) deterministic - while one evaluation sits in its root search a
+    # second evaluation at another temperature runs to completion (what a thread switch inside the solve does), by wrapping the
+    # root finder the module calls; (b) real threads with a short switch interval.  Every value must equal the serial one.
+    inter = [(float(rng.uniform(1.05, 3.0)), dom.loguniform(rng, 1e-2, 30.0)) for _ in range(40 if ctx.quick else 400)]
+    serial = [z_impl(tr_, pr_)[0] for tr_, pr_ in inter]
+    if hasattr(gas, "brentq"):
+        orig_brentq = gas.brentq
+        state = dict(depth=0, k=0)
+
+        def interleaving_brentq(f, a, b, *args, **kw):
+            if state["depth"] == 0:
+                state["depth"] = 1
+                try:
+                    o_tr, o_pr = inter[(state["k"] + 7) % len(inter)]
+                    z_impl(o_tr, o_pr)       # another caller's complete evaluation, in the middle of this one
+                finally:
+                    state["depth"] = 0
+            return orig_brentq(f, a, b, *args, **kw)
+        gas.brentq = interleaving_brentq
+        try:
+            for k_, (tr_, pr_) in enumerate(inter):
+                state["k"] = k_
+                z2 = z_impl(tr_, pr_)[0]
+                ev += 1
+                if z2 != serial[k_]:
+                    bad("z_factor_DAK returns a different value when another evaluation (other temperature) runs while it is in its root search - shared work state",
+                        dict(T_r=tr_, p_r=pr_, interleaved_with=dict(T_r=inter[(k_ + 7) % len(inter)][0], p_r=inter[(k_ + 7) % len(inter)][1])), dict(serial=serial[k_], interleaved=z2))
+                    break
+        finally:
+            gas.brentq = orig_brentq
+    import sys as _sys
+    from concurrent.futures import ThreadPoolExecutor
+    old_si = _sys.getswitchinterval()
+    _sys.setswitchinterval(1e-6)
+    try:
+        reps = 6 if ctx.quick else 30
+        with ThreadPoolExecutor(max_workers=8) as ex:
+            got = list(ex.map(lambda tp: z_impl(tp[0], tp[1])[0], inter * reps))
+    finally:
+        _sys.setswitchinterval(old_si)
+    ev += len(got)
+    wrong = [i for i, z_ in enumerate(got) if z_ != serial[i % len(inter)]]
+    if wrong:
+        i = wrong[0]
+        bad("z_factor_DAK returns a different value when evaluated concurrently from several threads than serially", dict(T_r=inter[i % len(inter)][0], p_r=inter[i % len(inter)][1], threads=8),
+            dict(serial=serial[i % len(inter)], concurrent=got[i], wrong_values=len(wrong), calls=len(got)))
     # Hall-Yarbrough: terminates, finite, within a few percent of the DAK value on the common range
     class TO(Exception):
         pass
